@@ -238,7 +238,7 @@ func (g *G) genC08(p *Plan) {
 			ops = append(ops, op)
 		}
 		if kind == "chunked" {
-			for _, lie := range []string{"badhex", "nosig", "trunc", "declen+", "declen-", "nofinal"} {
+			for _, lie := range []string{"badhex", "nosig", "trunc", "trunc1", "declen+", "declen-", "nofinal"} {
 				op := mk()
 				op.Body = g.body(1 + size)
 				op.ChLie = lie
@@ -389,7 +389,7 @@ func (g *G) genC12(p *Plan) {
 			ops = ops[:60]
 		}
 	}
-	for _, lie := range []string{"badhex", "nosig", "trunc", "declen+", "declen-", "nofinal"} {
+	for _, lie := range []string{"badhex", "nosig", "trunc", "trunc1", "declen+", "declen-", "nofinal"} {
 		if g.chance(0.5) {
 			continue
 		}
